@@ -15,7 +15,7 @@ def _worksheet_title(value, in_cell: Cell):
 
 class MatrixOfCellIdentifiersToken(RegexpBaseToken):
     # TODO Consider the possibility of a matrix like A:A
-    regexp = r'((\'([^!]*?)\'|(\w*?))!)?\$?([A-Z]+)(\$?(\d+))?:\$?([A-Z]+)(\$?(\d+))?'
+    regexp = r'((\'((?:[^\']|\'\')*)\'|(\w*?))!)?\$?([A-Z]+)(\$?(\d+))?:\$?([A-Z]+)(\$?(\d+))?'
     last_match_regexp = r'([^\d].*)?'
     value_range = [0, -1]
 
@@ -36,7 +36,7 @@ class MatrixOfCellIdentifiersToken(RegexpBaseToken):
 
 
 class CellIdentifierRangeToken(RegexpBaseToken):
-    regexp = r'((\'(.*?)\'|(\w*?))!)?((\$?([A-Z]+)(\$?(\d+))?:\$?\8(\$?(\d+))?)|(\$?([A-Z]+)(\$?(\d+))?:\$?([A-Z]+)(\$?\15)?))'
+    regexp = r'((\'((?:[^\']|\'\')*)\'|(\w*?))!)?((\$?([A-Z]+)(\$?(\d+))?:\$?\8(\$?(\d+))?)|(\$?([A-Z]+)(\$?(\d+))?:\$?([A-Z]+)(\$?\15)?))'
     last_match_regexp = r'([^\d$].*)?'
     value_range = [0, -1]
 
@@ -58,7 +58,7 @@ class CellIdentifierRangeToken(RegexpBaseToken):
 
 
 class CellIdentifierToken(RegexpBaseToken):
-    regexp = r'((\'(.*?)\'|(\w*?))!)?\$?([A-Z]+)\$?(\d+)'
+    regexp = r'((\'((?:[^\']|\'\')*)\'|(\w*?))!)?\$?([A-Z]+)\$?(\d+)'
     last_match_regexp = r'([^\d]|[^:\d].*)?'
     value_range = [0, -1]
 
